@@ -125,13 +125,10 @@ func checkFramework(c FCase) (out evid.Outcome) {
 	// the first handler is a reflective probe: it tells what the request scope
 	// holds initially; the request must be the very one handed to ServeHTTP
 	probe := func(ctx flamego.Context, w http.ResponseWriter, r *http.Request, _ *log.Logger) {
+		// (whether the request is the very *http.Request given to ServeHTTP, and
+		// whether the writer is the one Context.ResponseWriter() returns, is not
+		// C04's business: later handlers are compared with what this one got)
 		s.ctx, s.w, s.r = ctx, w, r
-		if r != s.req {
-			s.fail("the request scope holds request %p, ServeHTTP was given %p", r, s.req)
-		}
-		if ctx.ResponseWriter() != w {
-			s.fail("the injected ResponseWriter differs from Context.ResponseWriter()")
-		}
 	}
 	hs := []flamego.Handler{probe}
 	for k, h := range c.Handlers {
@@ -216,8 +213,8 @@ func checkFramework(c FCase) (out evid.Outcome) {
 							}
 						}
 					}
-					if !ok && missing == "" {
-						missing = t.String()
+					if !ok {
+						missing = addMissing(missing, t.String())
 					}
 				}
 				if missing != "" {
@@ -238,10 +235,13 @@ func checkFramework(c FCase) (out evid.Outcome) {
 		if missing != "" {
 			s.classes["unresolvable"] = true
 			if escaped == nil {
-				return ffail(out, s.classes, "framework-no-panic", "a handler needs %s which nobody registered, but ServeHTTP did not panic; %s", missing, desc)
+				return ffail(out, s.classes, "framework-no-panic", "a handler needs %s which nobody registered, but ServeHTTP did not panic; %s", showMissing(missing), desc)
 			}
-			if !strings.Contains(fmt.Sprint(escaped), missing) {
-				return ffail(out, s.classes, "framework-panic-text", "panic %q does not name the unresolvable type %s; %s", escaped, missing, desc)
+			// the message may quote the handler's own type, which lists every
+			// parameter type: the unresolvable type has to be named outside of it
+			msg := stripQuotedSignatures(fmt.Sprint(escaped))
+			if !namesOne(msg, missing) {
+				return ffail(out, s.classes, "framework-panic-text", "panic %q names none of the unresolvable types %s (outside the handler's own signature); %s", escaped, showMissing(missing), desc)
 			}
 		} else if escaped != nil {
 			return ffail(out, s.classes, "framework-panic", "ServeHTTP panicked although every parameter can be resolved: %v; %s", escaped, desc)
@@ -314,4 +314,41 @@ func TestFramework(t *testing.T) {
 		c := genFCase(t)
 		evid.Run(t, "framework", c, func() evid.Outcome { return checkFramework(c) })
 	})
+}
+
+// stripQuotedSignatures removes what a message quotes about the handler itself:
+// bracketed groups ("[pkg.name:func(...)]", nested brackets of slice types
+// included) and func(...) type expressions. The parameter types listed there
+// name every parameter, resolvable or not.
+func stripQuotedSignatures(msg string) string {
+	var b strings.Builder
+	depth := 0
+	for i := 0; i < len(msg); i++ {
+		switch c := msg[i]; {
+		case c == '[':
+			depth++
+		case c == ']' && depth > 0:
+			depth--
+		case depth == 0:
+			b.WriteByte(c)
+		}
+	}
+	out := b.String()
+	for {
+		i := strings.Index(out, "func(")
+		if i < 0 {
+			return out
+		}
+		j, n := i+5, 1
+		for j < len(out) && n > 0 {
+			switch out[j] {
+			case '(':
+				n++
+			case ')':
+				n--
+			}
+			j++
+		}
+		out = out[:i] + "<func>" + out[j:]
+	}
 }
